@@ -129,6 +129,74 @@ def reuse_finished_folder(sc):
     return True
 
 
+def malformed_entries(sc, allow_partial_dict=True):
+    """audit2 C20-G5: a config file that IS a JSON dict but whose entry under the key a run looks up is malformed (written by
+    another version, edited by hand): a string / null / list / number instead of a dict, or (`allow_partial_dict`) a dict
+    without the target field.  Deterministic post-processing of a scenario with a corrupted file (private generator seeded
+    by the scenario; the stream of `rand_scenario` is unchanged).  `<S>` stands for the scratch directory."""
+    import json
+    import random
+    import zlib
+    if not sc["corrupt"] or sc.get("malformed"):
+        return False
+    r2 = random.Random(zlib.crc32(json.dumps(sc, sort_keys=True).encode()) ^ 0x5A5A)
+    if r2.random() >= 0.5:
+        return False
+    f = int(sorted(sc["corrupt"])[0])
+    keys = []
+    for r in sc["runs"]:
+        if f == 0 and r["db"]:
+            keys.append("<S>/" + r["db"]["gtf"])
+        for st in r["stores"]:
+            if f == 1 and st["kind"] == "index":
+                keys.append("<S>/" + st["reference"])
+            if f == 2 and st["kind"] == "bed":
+                keys.append("<S>/" + st["genedb"])
+    if not keys:
+        return False
+    pool = ['"a string"', "null", "[1, 2]", "5", "true"] + (['{"gtf_mtime": 11.0}', "{}"] if allow_partial_dict else [])
+    val = r2.choice(pool)
+    sc["corrupt"] = {str(f): "{%s: %s}" % (json.dumps(r2.choice(keys)), val)}
+    sc["malformed"] = "partial_dict" if val.startswith("{") else "not_a_dict"
+    return True
+
+
+def late_start_scenarios():
+    """seed C20_b2, deterministic: run 0 performs k of its steps (k = 0..13: every position of its start-up and of its
+    first cycle, in particular between the mkstemp and the os.replace of each store), then run 1 STARTS - everything before
+    its first cache step included - and runs to its end, then run 0 goes on"""
+    a = {"out": "o0", "clean_start": False, "db": {"gtf": "annA.gtf", "complete": True}, "stores": []}
+    b = {"out": "o1", "clean_start": False, "db": {"gtf": "annB.gtf", "complete": True}, "stores": []}
+    c = {"out": "o0", "clean_start": False, "db": None,
+         "stores": [{"kind": "index", "reference": "ref1.fa", "data_type": "nanopore"}, {"kind": "bed", "genedb": "g1.db"}]}
+    res = []
+    for k in range(14):
+        res.append({"n": 2, "runs": [a, b], "warm": [], "touch": [], "corrupt": {}, "clock0": 1000, "late": [1],
+                    "schedule": [0] * k + [1] * 40, "name": "late_start_db_%d" % k})
+    for k in range(0, 18, 2):
+        res.append({"n": 2, "runs": [c, b], "warm": [], "touch": [], "corrupt": {}, "clock0": 1000, "late": [1],
+                    "schedule": [0] * k + [1] * 40, "name": "late_start_stores_%d" % k})
+    return res
+
+
+def rebuild_scenarios():
+    """audit2 C20-G2 with the two phases of a conversion as steps (`hold_build`): A0 (folder oX, annA) has finished; B (folder
+    o0, annA) gets a cache hit on oX/annA.db and later USES it (step `use`: it opens the path again); C (folder oX again,
+    the SAME annotation, --clean_start) rebuilds oX/annA.db (steps `build`, `produce`).  First the witness - B looks up,
+    C up to and including `build`, B uses - then every split of the two programs"""
+    a0 = {"out": "oX", "clean_start": False, "db": {"gtf": "annA.gtf", "complete": True}, "stores": []}
+    b = {"out": "o0", "clean_start": False, "db": {"gtf": "annA.gtf", "complete": True}, "stores": []}
+    c = {"out": "oX", "clean_start": True, "db": {"gtf": "annA.gtf", "complete": True}, "stores": []}
+    c2 = {"out": "oX", "clean_start": True, "db": {"gtf": "alt/annA.gtf", "complete": True}, "stores": []}
+    base = {"n": 2, "runs": [b, c], "warm": [a0], "touch": [], "corrupt": {}, "clock0": 1000, "hold_build": True}
+    res = [dict(base, schedule=[0] * 6 + [1] * 6 + [0] + [1] * 3, name="rebuild_same_input_midway_witness")]
+    for i in range(0, 8):
+        for j in range(0, 9, 2 if i % 2 else 1):
+            res.append(dict(base, schedule=[0] * i + [1] * j + [0] * 8 + [1] * 9, name="rebuild_split_%d_%d" % (i, j)))
+    res.append(dict(base, runs=[b, c2], schedule=[0] * 6 + [1] * 6 + [0] + [1] * 3, name="rebuild_other_input_midway"))
+    return res
+
+
 def stable_scenarios():
     """`shared_target_overwrite_witness` (Props/C20Stable.lean) as a scenario for the real functions: A0 (folder oX, annA)
     has finished; B (folder o0, annA) performs its lookup (4 x exists, load, lookup), then A' (folder oX again, a same-named
